@@ -1,6 +1,6 @@
 (* C17 - Actisense output decodes to the same message; the reader survives any stream.
    Only statements (fixed in Spec/ActisenseSpec.v) and their closing lemma; nothing else lives here. *)
-From Coq Require Import ZArith List.
+From Coq Require Import ZArith List Lia.
 From N2kV Require Import Base.Res Model.ActisenseDefs Spec.ActisenseSpec Proofs.ActisenseProofs.
 Import ListNotations.
 Local Open Scope Z_scope.
